@@ -170,6 +170,9 @@ def c12(ck, tmp):
                 if sg["SN"] == g.segs[0]["SN"]:
                     sg["SO"] = so
                     so += len(sg["seq"])
+        for sg in g.segs[1:]:
+            if rng.random() < 0.2:      # single-base segments (SNP alleles): reverse complement of one base
+                sg["seq"] = rng.choice("ACGT")
         adj = g.adjacency()
         seqd = g.seqd()
         text = g.text()
@@ -288,7 +291,7 @@ def main(prop):
                       "a process that exits with status 0 has flushed everything it put",
                       "put/flush/get are atomic with respect to a worker's death (a kill inside a pipe write is outside the model)"]
     ck.canon = ["records identified by read name", "log output ignored"]
-    ck.lean_build(["Gaftools.Props.C11"])
+    ck.lean_build(["Gaftools.Props.C11b"])
     ck.audit("%s.lean" % prop)
     import gaftools.cli.realign as R
     tmp = tempfile.mkdtemp(prefix="gtv-realign-")
